@@ -87,7 +87,29 @@ def _is_local(ins) -> bool:
     return ins is not None and ins.opname in LOADS and ins.argval != 'self'
 
 
-def method_skeleton(fn, name: str):
+LOG_LEVELS = {'debug', 'info', 'warning', 'error', 'exception', 'critical', 'log'}
+
+
+def _logger_call_end(ins, k: int, name: str) -> int:
+    """ins[k] is LOAD_GLOBAL <module-level logger>.  The only accepted use is the statement
+    `logger.<level>(<constants>)`: LOAD_GLOBAL, LOAD_ATTR <level> (method), LOAD_CONST*, [KW_NAMES], CALL, POP_TOP.
+    -> index of the POP_TOP; anything else: SkeletonError."""
+    j = k + 1
+    if not (j < len(ins) and ins[j].opname == 'LOAD_ATTR' and ins[j].arg & 1 and ins[j].argval in LOG_LEVELS):
+        raise SkeletonError(f'{name}@{ins[k].offset}: use of the logger that is not logger.<level>(...)')
+    j += 1
+    while j < len(ins) and ins[j].opname == 'LOAD_CONST':
+        j += 1
+    if j < len(ins) and ins[j].opname == 'KW_NAMES':
+        j += 1
+    if not (j + 1 < len(ins) and ins[j].opname == 'CALL' and ins[j + 1].opname == 'POP_TOP'):
+        raise SkeletonError(f'{name}@{ins[k].offset}: logger call with a non-constant argument or a used result')
+    if any(x.is_jump_target for x in ins[k + 1:j + 2]):
+        raise SkeletonError(f'{name}@{ins[k].offset}: jump into a logger call')
+    return j + 1
+
+
+def method_skeleton(fn, name: str, loggers=frozenset()):
     """-> list of (offset, access, detail)"""
     ins = [i for i in dis.get_instructions(fn) if i.opname != 'CACHE']
     out = []
@@ -100,10 +122,20 @@ def method_skeleton(fn, name: str):
     def emit(i, acc, detail=''):
         out.append((i.offset, acc, detail))
 
+    skip_to = -1
     for k, i in enumerate(ins):
+        if k <= skip_to:
+            continue
         prev = ins[k - 1] if k else None
         op = i.opname
         tag = None
+        if op == 'LOAD_GLOBAL' and i.argval in loggers and i.argval not in LOCAL_GLOBALS:
+            # `logger.<level>(<constants>)`: thread-local as far as `self` is concerned; skipped as a whole
+            if last_tag == 'active':
+                raise SkeletonError(f'{name}@{i.offset}: logger call while self._active is on the stack')
+            skip_to = _logger_call_end(ins, k, name)
+            last_tag = None
+            continue
         if op in ('LOAD_ATTR', 'LOAD_METHOD'):
             attr = i.argval
             is_method = bool(i.arg & 1) if op == 'LOAD_ATTR' else True
@@ -279,14 +311,18 @@ def check_readonly(cls) -> None:
 
 
 def skeleton(repo: Path) -> dict[str, list[tuple[int, str, str]]]:
+    import ast as _ast
+    from translate.donecb_ast import Module as _Module
     cls = load_class(repo)
     check_readonly(cls)
+    # module-level `logger = getLogger(__name__)` names (the `ast` half checks the module level, fail-closed)
+    loggers = frozenset(_Module(_ast.parse((repo / SRC).read_text())).loggers)
     res = {}
     for m in METHODS:
         fn = vars(cls).get(m)
         if fn is None:
             raise SkeletonError(f'method {m} missing')
-        res[m] = method_skeleton(fn, m)
+        res[m] = method_skeleton(fn, m, loggers)
     return res, cls
 
 
